@@ -22,7 +22,7 @@ pub assume_specification[ f64::from_bits ](b: u64) -> (r: f64)
 
 //@INCLUDE prelude/hashmap_entry.rs
 //@INCLUDE prelude/hashmap_get_mut.rs
-broadcast use {getmut_axioms::axiom_same_key_refl, vstd::std_specs::hash::group_hash_axioms};
+broadcast use {getmut_axioms::axiom_same_key_refl, vstd::std_specs::hash::group_hash_axioms, line_axioms::axiom_blank_text};
 
 #[verifier::external_type_specification]
 #[verifier::external_body]
@@ -72,7 +72,26 @@ pub fn shim_map_next<K, V>(it: &mut std::collections::hash_map::IntoIter<K, V>) 
 
 #[verifier::external_body] pub struct Key { _p: [u8; 0] }
 #[verifier::external_body] pub struct Generation { _p: [u8; 0] }
-#[verifier::external_body] pub struct Distribution { _p: [u8; 0] }
+#[verifier::external_body] pub struct Histogram { _p: [u8; 0] }
+#[verifier::external_body] pub struct RollingSummary { _p: [u8; 0] }
+#[verifier::external_body] pub struct Summary { _p: [u8; 0] }
+#[verifier::external_body] pub struct Quantile { _p: [u8; 0] }
+#[verifier::external_body] pub struct Instant { _p: [u8; 0] }
+impl Instant { #[verifier::external_body] pub fn now() -> Instant { unimplemented!() } }
+impl Histogram {
+    #[verifier::external_body] pub fn buckets(&self) -> Vec<(f64, u64)> { unimplemented!() }
+    #[verifier::external_body] pub fn count(&self) -> u64 { unimplemented!() }
+    #[verifier::external_body] pub fn sum(&self) -> f64 { unimplemented!() }
+}
+impl RollingSummary {
+    #[verifier::external_body] pub fn snapshot(&self, now: Instant) -> Summary { unimplemented!() }
+    #[verifier::external_body] pub fn count(&self) -> usize { unimplemented!() }
+}
+impl Summary { #[verifier::external_body] pub fn quantile(&self, q: f64) -> Option<f64> { unimplemented!() } }
+impl Quantile { #[verifier::external_body] pub fn value(&self) -> f64 { unimplemented!() } }
+//@ITEM file=metrics-exporter-prometheus/src/distribution.rs sel=enum Distribution
+//@REWRITE stub-arc Arc<Vec<Quantile>> ==> std::sync::Arc<Vec<Quantile>>
+//@END
 impl Distribution {
     #[verifier::external_body]
     pub fn record_samples(&mut self, samples: &[f64]) { unimplemented!() }
@@ -91,11 +110,15 @@ pub fn shim_clear_into(b: &Bucket, e: &mut Distribution)
 #[verifier::external_body] pub struct DistributionBuilder { _p: [u8; 0] }
 impl DistributionBuilder {
     pub uninterp spec fn fresh_for(&self, name: Seq<char>) -> Distribution;
+    /// "histogram" or "summary" for this metric name (C15: "histogram" exactly when get_distribution(name) is the Histogram variant)
+    pub uninterp spec fn dist_type(&self, name: Seq<char>) -> Seq<char>;
+    #[verifier::external_body]
+    pub fn get_distribution_type(&self, name: &str) -> (r: &str) ensures r@ == self.dist_type(name@) { unimplemented!() }
     #[verifier::external_body]
     pub fn get_distribution(&self, name: &str) -> (r: Distribution) ensures r == self.fresh_for(name@) { unimplemented!() }
 }
 #[verifier::external_body] pub struct SharedString { _p: [u8; 0] }
-#[verifier::external_body] pub struct Unit { _p: [u8; 0] }
+pub type Unit = RUnit;
 #[verifier::external_body] pub struct GenerationalAtomicStorage { _p: [u8; 0] }
 #[verifier::external_body]
 #[verifier::reject_recursive_types(K)]
@@ -116,6 +139,43 @@ impl<K, V> IndexMap<K, V> {
 #[verifier::reject_recursive_types(K)]
 #[verifier::reject_recursive_types(V)]
 pub struct IndexEntry<'a, K, V> { pub map: &'a mut IndexMap<K, V>, pub key: K }
+#[verifier::external_body]
+#[verifier::reject_recursive_types(K)]
+#[verifier::reject_recursive_types(V)]
+pub struct IndexDrain<'a, K, V> { _p: std::marker::PhantomData<&'a mut (K, V)> }
+pub mod drain_axioms {
+    use vstd::prelude::*;
+    pub uninterp spec fn idrain_remaining<'a, K, V>(it: &super::IndexDrain<'a, K, V>) -> Seq<(K, V)>;
+    pub uninterp spec fn hdrain_remaining<'a, K, V>(it: &std::collections::hash_map::Drain<'a, K, V>) -> Seq<(K, V)>;
+}
+pub use drain_axioms::{idrain_remaining, hdrain_remaining};
+impl<K, V> IndexMap<K, V> {
+    #[verifier::external_body]
+    pub fn drain(&mut self, r: std::ops::RangeFull) -> (d: IndexDrain<'_, K, V>) { unimplemented!() }
+}
+#[verifier::external_body]
+pub fn shim_idrain_next<'a, K, V>(it: &mut IndexDrain<'a, K, V>) -> (r: Option<(K, V)>)
+    ensures match r {
+        Some(x) => idrain_remaining(old(it)).len() > 0 && x == idrain_remaining(old(it))[0] && idrain_remaining(final(it)) == idrain_remaining(old(it)).skip(1),
+        None => idrain_remaining(old(it)).len() == 0 && idrain_remaining(final(it)) == idrain_remaining(old(it)),
+    },
+{ unimplemented!() }
+#[verifier::external_type_specification]
+#[verifier::external_body]
+#[verifier::reject_recursive_types(K)]
+#[verifier::reject_recursive_types(V)]
+#[verifier::reject_recursive_types(A)]
+pub struct ExHashMapDrain<'a, K: 'a, V: 'a, A: std::alloc::Allocator>(std::collections::hash_map::Drain<'a, K, V, A>);
+#[verifier::external_body]
+pub fn shim_hdrain_next<'a, K, V>(it: &mut std::collections::hash_map::Drain<'a, K, V>) -> (r: Option<(K, V)>)
+    ensures match r {
+        Some(x) => hdrain_remaining(old(it)).len() > 0 && x == hdrain_remaining(old(it))[0] && hdrain_remaining(final(it)) == hdrain_remaining(old(it)).skip(1),
+        None => hdrain_remaining(old(it)).len() == 0 && hdrain_remaining(final(it)) == hdrain_remaining(old(it)),
+    },
+{ it.next() }
+pub fn shim_same<T>(t: T) -> (r: T) ensures r == t { t }
+// ASSUMED std contract: drain() yields every entry of the map exactly once (in map_order) and leaves the map empty
+pub assume_specification<'a, K, V, S, A: std::alloc::Allocator>[ std::collections::HashMap::<K, V, S, A>::drain ](m: &'a mut std::collections::HashMap<K, V, S, A>) -> (d: std::collections::hash_map::Drain<'a, K, V, A>);
 impl<K, V> IndexMap<K, V> {
     #[verifier::external_body]
     pub fn entry(&mut self, key: K) -> (e: IndexEntry<'_, K, V>)
@@ -396,6 +456,207 @@ impl Inner {
 //@END
 }
 
+
+// ------------------------------------------------------------------ render(): abstract lines (specification)
+/// metrics::Unit as render() sees it (opaque, Copy)
+#[derive(Clone, Copy)]
+pub struct RUnit { pub u: u8 }
+pub enum Line {
+    Help { name: Seq<char> },
+    Type { name: Seq<char>, ty: Seq<char> },
+    Sample { name: Seq<char>, suffix: Option<Seq<char>>, unit: Option<RUnit>, extra: Option<Seq<char>>, rest: Seq<char> },
+    Blank,
+}
+pub mod line_axioms {
+    use vstd::prelude::*;
+    pub uninterp spec fn line_text(l: super::Line) -> Seq<char>;
+    /// the family name HELP/TYPE print for (name, unit): formatting.rs `metric_family_name` (C08's contract)
+    pub uninterp spec fn fam_spec(name: Seq<char>, unit: Option<super::RUnit>) -> Seq<char>;
+    #[verifier::external_body]
+    pub broadcast proof fn axiom_blank_text()
+        ensures #[trigger] line_text(super::Line::Blank) == seq!['\n'],
+    {
+    }
+    pub uninterp spec fn sample_rest<T, T2>(labels: Seq<String>, extra: Option<(&'static str, T)>, value: T2) -> Seq<char>;
+}
+pub use line_axioms::{line_text, fam_spec, sample_rest};
+pub open spec fn text_of(tr: Seq<Line>) -> Seq<char>
+    decreases tr.len(),
+{
+    if tr.len() == 0 { Seq::<char>::empty() } else { text_of(tr.drop_last()) + line_text(tr.last()) }
+}
+/// exposition structure as a scanner over the abstract lines: (HELP? TYPE SAMPLE* BLANK)*, every sample inside the family of the
+/// preceding TYPE line (same family name) and carrying only a suffix / extra label a Prometheus family may have
+pub enum Scan { Idle, AfterHelp { fam: Seq<char> }, InFamily { fam: Seq<char> }, Bad }
+pub open spec fn sample_shape_ok(suffix: Option<Seq<char>>, extra: Option<Seq<char>>) -> bool {
+    ||| (suffix is None && extra is None)                                   // counter / gauge sample
+    ||| (suffix is None && extra == Some("quantile"@))                      // summary quantile
+    ||| (suffix == Some("bucket"@) && extra == Some("le"@))                 // histogram bucket
+    ||| ((suffix == Some("sum"@) || suffix == Some("count"@)) && extra is None)
+}
+pub open spec fn scan_step(st: Scan, l: Line) -> Scan {
+    match (st, l) {
+        (Scan::Idle, Line::Help { name }) => Scan::AfterHelp { fam: name },
+        (Scan::Idle, Line::Type { name, ty }) => Scan::InFamily { fam: name },
+        (Scan::AfterHelp { fam }, Line::Type { name, ty }) => if name == fam { Scan::InFamily { fam } } else { Scan::Bad },
+        (Scan::InFamily { fam }, Line::Sample { name, suffix, unit, extra, rest }) =>
+            if fam_spec(name, unit) == fam && sample_shape_ok(suffix, extra) { Scan::InFamily { fam } } else { Scan::Bad },
+        (Scan::InFamily { fam }, Line::Blank) => Scan::Idle,
+        _ => Scan::Bad,
+    }
+}
+pub open spec fn scan(tr: Seq<Line>) -> Scan
+    decreases tr.len(),
+{
+    if tr.len() == 0 { Scan::Idle } else { scan_step(scan(tr.drop_last()), tr.last()) }
+}
+pub proof fn lemma_push(tr: Seq<Line>, l: Line)
+    ensures text_of(tr.push(l)) == text_of(tr) + line_text(l), scan(tr.push(l)) == scan_step(scan(tr), l),
+{
+    assert(tr.push(l).drop_last() =~= tr);
+}
+
+pub open spec fn opt_view(s: Option<&'static str>) -> Option<Seq<char>> { match s { Some(x) => Some(x@), None => None } }
+pub open spec fn extra_name<T>(e: Option<(&'static str, T)>) -> Option<Seq<char>> { match e { Some((n, _)) => Some(n@), None => None } }
+
+// formatting.rs functions as their C08 contracts say, abstracted to whole lines (ASSUMED here, PROVED in the C08 check)
+#[verifier::external_body]
+pub fn write_help_line(buffer: &mut String, name: &str, desc: &SharedString)
+    ensures final(buffer)@ == old(buffer)@ + line_text(Line::Help { name: name@ }),
+{ unimplemented!() }
+#[verifier::external_body]
+pub fn write_type_line(buffer: &mut String, name: &str, metric_type: &str)
+    ensures final(buffer)@ == old(buffer)@ + line_text(Line::Type { name: name@, ty: metric_type@ }),
+{ unimplemented!() }
+#[verifier::external_body]
+pub fn write_metric_line<T, T2>(buffer: &mut String, name: &str, suffix: Option<&'static str>, labels: &[String],
+                                additional_label: Option<(&'static str, T)>, value: T2, unit: Option<RUnit>)
+    ensures exists|rest: Seq<char>| final(buffer)@ == old(buffer)@ + #[trigger] line_text(Line::Sample { name: name@, suffix: opt_view(suffix), unit: unit,
+                extra: extra_name(additional_label), rest: rest }),
+{ unimplemented!() }
+#[verifier::external_body]
+pub fn metric_family_name(name: &str, unit: Option<RUnit>) -> (r: String)
+    ensures r@ == fam_spec(name@, unit),
+{ unimplemented!() }
+
+impl Inner {
+//@ITEM file=metrics-exporter-prometheus/src/recorder.rs sel=impl Inner :: fn render ret=out
+//@REWRITE SPEC-closure re:description\.and_then\(\|\(_, unit\)\| \*unit\)\.filter\(\|_\| self\.enable_unit_suffix\) ==> description.and_then(|du: &(SharedString, Option<Unit>)| -> (u: Option<Unit>) ensures u == du.1 { du.1 }).filter(|fu: &Unit| -> (b: bool) ensures b == self.enable_unit_suffix { self.enable_unit_suffix })
+//@FORLOOP 1 o1 shim_same shim_hdrain_next
+//@FORLOOP 2 i1 shim_same shim_hdrain_next
+//@FORLOOP 3 o2 shim_same shim_hdrain_next
+//@FORLOOP 4 i2 shim_same shim_hdrain_next
+//@FORLOOP 5 o3 shim_same shim_hdrain_next
+//@FORLOOP 6 i3 shim_same shim_idrain_next
+//@SPEC
+    requires obeys_key_model::<String>(), obeys_key_model::<Vec<String>>(),
+    ensures
+        // the output is (HELP? TYPE SAMPLE* blank)* with every sample inside the family its TYPE line declares
+        exists|tr: Seq<Line>| out@ == text_of(tr) && scan(tr) is Idle,
+//@AFTER 1 let mut output = String::new();
+        let ghost mut tr: Seq<Line> = Seq::empty();
+//@LOOP 1
+            invariant output@ == text_of(tr), scan(tr) is Idle,
+            decreases hdrain_remaining(&o1).len(),
+//@LOOP 2
+                invariant output@ == text_of(tr), scan(tr) == (Scan::InFamily { fam: fam_spec(name@, unit) }),
+                decreases hdrain_remaining(&i1).len(),
+//@LOOP 3
+            invariant output@ == text_of(tr), scan(tr) is Idle,
+            decreases hdrain_remaining(&o2).len(),
+//@LOOP 4
+                invariant output@ == text_of(tr), scan(tr) == (Scan::InFamily { fam: fam_spec(name@, unit) }),
+                decreases hdrain_remaining(&i2).len(),
+//@LOOP 5
+            invariant output@ == text_of(tr), scan(tr) is Idle,
+            decreases hdrain_remaining(&o3).len(),
+//@LOOP 6
+                invariant output@ == text_of(tr), scan(tr) == (Scan::InFamily { fam: fam_spec(name@, unit) }),
+                decreases idrain_remaining(&i3).len(),
+//@LOOP 7
+                            invariant output@ == text_of(tr), scan(tr) == (Scan::InFamily { fam: fam_spec(name@, unit) }),
+//@LOOP 8
+                        invariant output@ == text_of(tr), scan(tr) == (Scan::InFamily { fam: fam_spec(name@, unit) }),
+//@AFTER 1 write_help_line(&mut output, family_name.as_str(), desc);
+                proof { lemma_push(tr, Line::Help { name: fam_spec(name@, unit) }); tr = tr.push(Line::Help { name: fam_spec(name@, unit) }); }
+//@AFTER 2 write_help_line(&mut output, family_name.as_str(), desc);
+                proof { lemma_push(tr, Line::Help { name: fam_spec(name@, unit) }); tr = tr.push(Line::Help { name: fam_spec(name@, unit) }); }
+//@AFTER 3 write_help_line(&mut output, family_name.as_str(), desc);
+                proof { lemma_push(tr, Line::Help { name: fam_spec(name@, unit) }); tr = tr.push(Line::Help { name: fam_spec(name@, unit) }); }
+//@AFTER 1 write_type_line(&mut output, family_name.as_str(), "counter");
+            proof { let l = Line::Type { name: fam_spec(name@, unit), ty: "counter"@ }; lemma_push(tr, l); tr = tr.push(l); }
+//@AFTER 1 write_type_line(&mut output, family_name.as_str(), "gauge");
+            proof { let l = Line::Type { name: fam_spec(name@, unit), ty: "gauge"@ }; lemma_push(tr, l); tr = tr.push(l); }
+//@AFTER 1 write_type_line(&mut output, family_name.as_str(), distribution_type);
+            proof {
+                // the TYPE of a distribution family is decided by the metric's own (bare) name -- the name its distributions were built for
+                assert(distribution_type@ == self.distribution_builder.dist_type(name@));
+                let l = Line::Type { name: fam_spec(name@, unit), ty: distribution_type@ }; lemma_push(tr, l); tr = tr.push(l);
+            }
+//@AFTER 1 stmt:write_metric_line
+                proof {
+                    let o0 = text_of(tr);
+                    let rest = choose|rest: Seq<char>| output@ == o0 + #[trigger] line_text(Line::Sample { name: name@, suffix: None::<Seq<char>>, unit: unit, extra: None::<Seq<char>>, rest: rest });
+                    let l = Line::Sample { name: name@, suffix: None::<Seq<char>>, unit: unit, extra: None::<Seq<char>>, rest: rest };
+                    assert(output@ == o0 + line_text(l));
+                    lemma_push(tr, l); tr = tr.push(l);
+                }
+//@AFTER 2 stmt:write_metric_line
+                proof {
+                    let o0 = text_of(tr);
+                    let rest = choose|rest: Seq<char>| output@ == o0 + #[trigger] line_text(Line::Sample { name: name@, suffix: None::<Seq<char>>, unit: unit, extra: None::<Seq<char>>, rest: rest });
+                    let l = Line::Sample { name: name@, suffix: None::<Seq<char>>, unit: unit, extra: None::<Seq<char>>, rest: rest };
+                    assert(output@ == o0 + line_text(l));
+                    lemma_push(tr, l); tr = tr.push(l);
+                }
+//@AFTER 3 stmt:write_metric_line
+                proof {
+                    let o0 = text_of(tr);
+                    let rest = choose|rest: Seq<char>| output@ == o0 + #[trigger] line_text(Line::Sample { name: name@, suffix: None::<Seq<char>>, unit: unit, extra: Some("quantile"@), rest: rest });
+                    let l = Line::Sample { name: name@, suffix: None::<Seq<char>>, unit: unit, extra: Some("quantile"@), rest: rest };
+                    assert(output@ == o0 + line_text(l));
+                    lemma_push(tr, l); tr = tr.push(l);
+                }
+//@AFTER 4 stmt:write_metric_line
+                proof {
+                    let o0 = text_of(tr);
+                    let rest = choose|rest: Seq<char>| output@ == o0 + #[trigger] line_text(Line::Sample { name: name@, suffix: Some("bucket"@), unit: unit, extra: Some("le"@), rest: rest });
+                    let l = Line::Sample { name: name@, suffix: Some("bucket"@), unit: unit, extra: Some("le"@), rest: rest };
+                    assert(output@ == o0 + line_text(l));
+                    lemma_push(tr, l); tr = tr.push(l);
+                }
+//@AFTER 5 stmt:write_metric_line
+                proof {
+                    let o0 = text_of(tr);
+                    let rest = choose|rest: Seq<char>| output@ == o0 + #[trigger] line_text(Line::Sample { name: name@, suffix: Some("bucket"@), unit: unit, extra: Some("le"@), rest: rest });
+                    let l = Line::Sample { name: name@, suffix: Some("bucket"@), unit: unit, extra: Some("le"@), rest: rest };
+                    assert(output@ == o0 + line_text(l));
+                    lemma_push(tr, l); tr = tr.push(l);
+                }
+//@AFTER 6 stmt:write_metric_line
+                proof {
+                    let o0 = text_of(tr);
+                    let rest = choose|rest: Seq<char>| output@ == o0 + #[trigger] line_text(Line::Sample { name: name@, suffix: Some("sum"@), unit: unit, extra: None::<Seq<char>>, rest: rest });
+                    let l = Line::Sample { name: name@, suffix: Some("sum"@), unit: unit, extra: None::<Seq<char>>, rest: rest };
+                    assert(output@ == o0 + line_text(l));
+                    lemma_push(tr, l); tr = tr.push(l);
+                }
+//@AFTER 7 stmt:write_metric_line
+                proof {
+                    let o0 = text_of(tr);
+                    let rest = choose|rest: Seq<char>| output@ == o0 + #[trigger] line_text(Line::Sample { name: name@, suffix: Some("count"@), unit: unit, extra: None::<Seq<char>>, rest: rest });
+                    let l = Line::Sample { name: name@, suffix: Some("count"@), unit: unit, extra: None::<Seq<char>>, rest: rest };
+                    assert(output@ == o0 + line_text(l));
+                    lemma_push(tr, l); tr = tr.push(l);
+                }
+//@AFTER 1 output.push('\n');
+            proof { lemma_push(tr, Line::Blank); tr = tr.push(Line::Blank); assert(output@ =~= text_of(tr)); }
+//@AFTER 2 output.push('\n');
+            proof { lemma_push(tr, Line::Blank); tr = tr.push(Line::Blank); assert(output@ =~= text_of(tr)); }
+//@AFTER 3 output.push('\n');
+            proof { lemma_push(tr, Line::Blank); tr = tr.push(Line::Blank); assert(output@ =~= text_of(tr)); }
+//@END
+}
 
 #[verifier::external_body] pub struct KeyName { _p: [u8; 0] }
 impl KeyName {
